@@ -726,14 +726,14 @@ theorem dropWhile_all_false {α : Type} (p : α → Bool) (l : List α) (h : ∀
   | nil => rfl
   | cons x xs => simp [List.dropWhile, h x (by simp)]
 
-theorem natToStr_digits (n : Nat) : natToStr n ≠ [] ∧ ∀ c ∈ natToStr n, c.isDigit = true := by
-  have e : natToStr n = Nat.toDigits 10 n := by simp [natToStr]
+theorem natDec_digits (n : Nat) : natDec n ≠ [] ∧ ∀ c ∈ natDec n, c.isDigit = true := by
+  have e : natDec n = Nat.toDigits 10 n := rfl
   rw [e]
   exact ⟨Nat.toDigits_ne_nil, fun c hc => Nat.isDigit_of_mem_toDigits (by decide) (by decide) hc⟩
 
-theorem clean_natToStr (n : Nat) : clean (natToStr n) = true := by
-  obtain ⟨hne, hd⟩ := natToStr_digits n
-  cases h : natToStr n with
+theorem clean_natDec (n : Nat) : clean (natDec n) = true := by
+  obtain ⟨hne, hd⟩ := natDec_digits n
+  cases h : natDec n with
   | nil => exact absurd h hne
   | cons c cs =>
     rw [h] at hd
@@ -743,17 +743,17 @@ theorem clean_natToStr (n : Nat) : clean (natToStr n) = true := by
     have := digit_props x (hd x hx)
     exact ⟨⟨this.2.2.1, this.2.2.2.1⟩, this.2.2.2.2.1⟩
 
-theorem parseNat_natToStr (n : Nat) : parseNat (natToStr n) = some n := by
-  obtain ⟨hne, hd⟩ := natToStr_digits n
-  have hs : numStrip (natToStr n) = natToStr n := by
+theorem parseNat_natDec (n : Nat) : parseNat (natDec n) = some n := by
+  obtain ⟨hne, hd⟩ := natDec_digits n
+  have hs : numStrip (natDec n) = natDec n := by
     unfold numStrip rstripP lstripP
     rw [dropWhile_all_false _ _ (fun c hc => (digit_props c (hd c hc)).2.1)]
     rw [dropWhile_all_false _ _ (fun c hc => (digit_props c (hd c (by simpa using hc))).2.1)]
     simp
-  have ha : allDigits (natToStr n) = true := by
+  have ha : allDigits (natDec n) = true := by
     simp only [allDigits, Bool.and_eq_true, Bool.not_eq_true', List.all_eq_true]
     exact ⟨by simpa using hne, hd⟩
-  have e : natToStr n = Nat.toDigits 10 n := by simp [natToStr]
+  have e : natDec n = Nat.toDigits 10 n := rfl
   simp only [parseNat, hs, ha, if_true]
   rw [e, Nat.ofDigitChars_ten_toDigits]
 
@@ -803,20 +803,20 @@ def rsHdr (i : Nat) (db : UsersDb) : RState UState :=
   { hasCreator := true, indent := some 0, modified := true, st := ust i {} db }
 
 theorem parseLine_userHeader (i : Nat) :
-    parseLine (sp kwUser (natToStr i)) = .cmd 0 kwUser (natToStr i) := by
-  have := parseLine_written 0 kwUser (natToStr i) kwOk_user (clean_natToStr i)
+    parseLine (sp kwUser (natDec i)) = .cmd 0 kwUser (natDec i) := by
+  have := parseLine_written 0 kwUser (natDec i) kwOk_user (clean_natDec i)
   have hl : asciiLower kwUser = kwUser := by decide
   rw [hl] at this
   simpa using this
 
 theorem header_start (E : Env) (db : UsersDb) (i : Nat) (ls : List Str) :
-    readLines (userCreator E) { st := ⟨none, db⟩ } (sp kwUser (natToStr i) :: ls) =
+    readLines (userCreator E) { st := ⟨none, db⟩ } (sp kwUser (natDec i) :: ls) =
       readLines (userCreator E) (rsHdr i db) ls := by
   simp only [readLines, parseLine_userHeader, readParsed, reindent]
-  have : (userCreator E).call ((userCreator E).new ⟨none, db⟩) kwUser (natToStr i) = (ust i {} db, none) := by
-    show userCall (userNew ⟨none, db⟩) kwUser (natToStr i) = _
+  have : (userCreator E).call ((userCreator E).new ⟨none, db⟩) kwUser (natDec i) = (ust i {} db, none) := by
+    show userCall (userNew ⟨none, db⟩) kwUser (natDec i) = _
     simp only [userNew]
-    exact userCall_user db i _ (parseNat_natToStr i)
+    exact userCall_user db i _ (parseNat_natDec i)
   simp [this, rsHdr]
 
 theorem userFinish_ok (E : Env) (j : Nat) (v : User) (db db' : UsersDb) (hname : v.name ≠ [])
@@ -827,14 +827,14 @@ theorem userFinish_ok (E : Env) (j : Nat) (v : User) (db db' : UsersDb) (hname :
 
 theorem header_mid (E : Env) (db db' : UsersDb) (j : Nat) (v : User) (i : Nat) (ls : List Str)
     (hname : v.name ≠ []) (hset : setUser E db j v = (db', none)) :
-    readLines (userCreator E) (rsMid j v db) (sp kwUser (natToStr i) :: ls) =
+    readLines (userCreator E) (rsMid j v db) (sp kwUser (natDec i) :: ls) =
       readLines (userCreator E) (rsHdr i db') ls := by
   simp only [readLines, parseLine_userHeader, readParsed, reindent, rsMid]
   have hf : (userCreator E).finish (ust j v db) = (⟨none, db'⟩, none) := userFinish_ok E j v db db' hname hset
-  have : (userCreator E).call ((userCreator E).new ⟨none, db'⟩) kwUser (natToStr i) = (ust i {} db', none) := by
-    show userCall (userNew ⟨none, db'⟩) kwUser (natToStr i) = _
+  have : (userCreator E).call ((userCreator E).new ⟨none, db'⟩) kwUser (natDec i) = (ust i {} db', none) := by
+    show userCall (userNew ⟨none, db'⟩) kwUser (natDec i) = _
     simp only [userNew]
-    exact userCall_user db' i _ (parseNat_natToStr i)
+    exact userCall_user db' i _ (parseNat_natDec i)
   simp [hf, this, rsHdr]
 
 theorem body_lines (E : Env) (db : UsersDb) (i : Nat) (u : User) (hu : UserOk u) (rest : List Str) :
@@ -938,7 +938,7 @@ theorem loadUsers_dumpUsers (E : Env) (db : UsersDb) (h : storableUsers E (sorte
       · have := hall c hc
         simp [isBreak, this.2.1, this.2.2]
     rcases hl with (rfl | ⟨q, hq, rfl⟩) | rfl
-    · exact hclean _ _ kwOk_user (clean_natToStr _) c hc
+    · exact hclean _ _ kwOk_user (clean_natDec _) c hc
     · simp only [userLines, List.mem_map] at hq
       obtain ⟨r, hr, rfl⟩ := hq
       have := userCmds_ok hu r hr
